@@ -1462,6 +1462,10 @@ def run(ctx):
     ctx.extra['time_spellings_s'] = round(time.time() - t, 1); t = time.time()
     check_polynomials(ctx, hz)
     ctx.extra['time_polynomials_s'] = round(time.time() - t, 1)
+    by = {}
+    for d in ctx.disagreements:
+        by[d['stream']] = by.get(d['stream'], 0) + 1
+    ctx.extra['disagreements_by_stream'] = by
 
 
 def replay(ctx, case):
